@@ -215,7 +215,7 @@ Proof.
     repeat first [apply load_dump_rel0 | fr1].
 Qed.
 
-Lemma oae_tailB e from m c s s0 : static (cf e) -> rel KB s s0 ->
+Lemma oae_tailB e from m c s s0 : dyn (cf e) = false -> rel KB s s0 ->
   rel KB s (match m with
     | AE _ _ prev es => ae_regular e from c prev es s0
     | AEPiece _ _ prev lab off len en =>
@@ -254,7 +254,7 @@ Proof.
     repeat first [apply load_dump_relB; [exact St|] | fr1].
 Qed.
 
-Lemma on_append_entries_relB e from m t c s s0 : static (cf e) -> rel KB s s0 ->
+Lemma on_append_entries_relB e from m t c s s0 : dyn (cf e) = false -> rel KB s s0 ->
   rel KB s (on_append_entries e from m t c s0).
 Proof.
   intros St H. unfold on_append_entries. cbv zeta.
@@ -334,7 +334,7 @@ Proof. reflexivity. Qed.
 
 (* ---------- on_message ---------- *)
 Lemma on_message_relB e from m x :
-  static (cf e) -> rel KB (start_S e x) (on_message e from m x).
+  dyn (cf e) = false -> rel KB (start_S e x) (on_message e from m x).
 Proof.
   intros St. unfold on_message. cbv zeta.
   destruct m.
@@ -448,7 +448,7 @@ Proof.
   intros; apply try_compact_rel; auto.
 Qed.
 
-Lemma tick_rest_relB e s s0 : static (cf e) -> rinv (nd s) -> rel KB s s0 -> rel KB s (tick_rest e s0).
+Lemma tick_rest_relB e s s0 : dyn (cf e) = false -> rinv (nd s) -> rel KB s s0 -> rel KB s (tick_rest e s0).
 Proof.
   intros St R H. unfold tick_rest. destruct (apply_entries e s0) as [s1 need] eqn:E.
   assert (H1 : rel KB s s1).
@@ -464,18 +464,21 @@ Lemma on_tick_eq e n :
   on_tick e n = (tick_load e ;; tick_timer e ;; tick_election e ;; tick_leader e ;; tick_rest e) (start_S e n).
 Proof. reflexivity. Qed.
 
-Lemma on_tick_relB e x : static (cf e) -> rinv x -> rel KB (start_S e x) (on_tick e x).
+Lemma on_tick_relB e x : dyn (cf e) = false -> tickp e x -> rinv x -> rel KB (start_S e x) (on_tick e x).
 Proof.
-  intros St R. rewrite on_tick_eq.
-  apply andthen_rel; [intros; apply tick_load_relB; auto | | apply rel_refl].
-  intros s1 H1. apply andthen_rel; [intros; apply tick_timer_rel; auto | | exact H1].
+  intros St Tp R. rewrite on_tick_eq.
+  assert (H1 : rel KB (start_S e x) (tick_load e (start_S e x))).
+  { apply tick_load_relB; [exact Tp|apply rel_refl]. }
+  unfold andthen at 1. cbv zeta. destruct (ok (tick_load e (start_S e x))); [|exact H1].
+  set (s1 := tick_load e (start_S e x)) in *. clearbody s1.
+  apply andthen_rel; [intros; apply tick_timer_rel; auto | | exact H1].
   intros s2 H2. apply andthen_rel; [intros; apply tick_election_relB; auto | | exact H2].
   intros s3 H3. apply andthen_rel; [intros; apply tick_leader_relB; auto | | exact H3].
   intros; apply tick_rest_relB; auto.
 Qed.
 
 Definition tick_maj (e : env) (x : node) : Prop :=
-  exists n1, majority 1 n1 = true /\ (static (cf e) -> others n1 = others x).
+  exists n1, majority 1 n1 = true /\ (tickp e x -> others n1 = others x).
 
 Lemma tick_post_calm e s : calm s ((tick_leader e ;; tick_rest e) s).
 Proof.
@@ -511,9 +514,9 @@ Proof.
     exists me. rewrite A4, B4, C4, D4, L4, B, C, D, E, A2, B2.
     rewrite A2 in A. repeat split; auto.
     rewrite L2 in F. cbn in F. destruct F as [F|[F M]]; [left; auto|right; split; auto].
-    exists (nd s2). split; auto. intros St.
+    exists (nd s2). split; auto. intros Tp.
     assert (HB : rel KB s0 s2).
-    { subst s2 s1. apply tick_timer_rel. apply tick_load_relB; auto. apply rel_refl. }
+    { subst s2 s1. apply tick_timer_rel. apply tick_load_relB; [exact Tp|]. apply rel_refl. }
     destruct HB as [O _]. exact O.
 Qed.
 
